@@ -86,6 +86,10 @@ def data(case):
     for i in range(case["n_apply"]):
         if case["copy_mask"][i % len(case["copy_mask"])]:
             Xap[i] = Xtr[i % ntr]
+    if case.get("int_panel"):
+        # integer-valued observations stored as int64 (counts)
+        Xtr = np.round(Xtr * 3).astype("int64")
+        Xap = np.round(Xap * 3).astype("int64")
     if kind == "tsfr":
         y = np.round(np.linspace(-1.0, 2.0, ntr) + 0.1 * np.cos(np.arange(ntr)), 4)
     else:
@@ -137,13 +141,22 @@ def oracle(case, ctx):
         lo = min(lens_tr)
         lens_ap = [min(T, lo + (u % (T - lo + 1))) for u in (case["unequal"][::-1] * n)[:n]]
         ctx.label("unequal_length_panel")
+    if case.get("prefit"):
+        # the same object was fitted before on another panel (more instances, longer series,
+        # other labels): its answers depend on the LAST fit only
+        X0 = panelpool.panel_values(case["seed"] + 23, len(Xtr) + 2, Xtr.shape[1], Xtr.shape[2] + 4)
+        y0 = (np.linspace(3.0, 4.0, len(X0)) if spec["kind"] == "tsfr" else panelpool.labels_for(len(X0), "str", 2))
+        sut(est.fit, wrap(X0, "nested"), y0)
+        ctx.label("refitted")
     r = sut(est.fit, wrap(Xtr, case["fit_container"], case.get("fit_labels"), lens_tr), y)
     if case.get("fit_labels") and case["fit_container"] == "nested":
         ctx.label("fit_row_labels_%s" % case["fit_labels"])
     if isinstance(r, Raised):
+        if not r.is_a(ValueError):
+            return [D("fit_raised:%s:%s@%s" % (spec["kind"], r.type, r.where), r.msg)]
         # data-dependent refusal to fit (e.g. no discriminative feature left): nothing is "fitted"
         ctx.mark_rejected()
-        ctx.label("fit_refused:%s" % spec["kind"])
+        ctx.label("fit_refused:%s:%s" % (spec["kind"], r.type))
         return []
     discs = []
     keep = bool(case.get("keep_labels")) and case["apply_container"] == "nested"
@@ -253,7 +266,7 @@ def cases(draw, family):
         "subset": draw(st.lists(st.integers(0, 5), min_size=1, max_size=4)),
         "fit_container": draw(st.sampled_from(["nested", "numpy3d"])),
         "apply_container": draw(st.sampled_from(["nested", "numpy3d"])),
-        "keep_labels": draw(st.booleans()),
+        "keep_labels": draw(st.booleans()), "prefit": draw(st.integers(0, 3)) == 0, "int_panel": draw(st.integers(0, 4)) == 0,
         "unequal": draw(st.one_of(st.none(), st.lists(st.integers(0, 30), min_size=2, max_size=6))),
         "fit_labels": draw(st.sampled_from([None, None, "shifted", "reversed", "shuffled", "strings"])),
     }
